@@ -119,19 +119,20 @@ fn post_compact(c: CompactThetaSketch) {
     let _ = CompactThetaSketch::deserialize(&b).map(|d| (d.estimate(), d.serialize()));
 }
 
-fn post_cpc(mut s: CpcSketch) {
+fn post_cpc(mut s: CpcSketch, seed: u64) {
     let _ = (s.estimate(), s.is_empty(), s.lg_k(), s.num_coupons());
     for n in NSD {
         let _ = (s.lower_bound(n), s.upper_bound(n));
     }
     let b = s.serialize();
-    let _ = CpcSketch::deserialize(&b).map(|d| d.estimate());
+    let _ = CpcSketch::deserialize_with_seed(&b, seed).map(|d| d.estimate());
     let _ = CpcWrapper::new(&b).map(|w| w.estimate());
     // operations that materialise the k x 64 matrix are proportional to the configuration,
     // not to the input: only exercised for moderate k
     if s.lg_k() <= 16 {
         let _ = s.validate();
-        let mut u = CpcUnion::new(s.lg_k());
+        // merge partners are built with the seed the image was read under (documented precondition)
+        let mut u = CpcUnion::with_seed(s.lg_k(), seed);
         u.update(&s);
         u.update(&s);
         let r = u.to_sketch();
@@ -141,8 +142,8 @@ fn post_cpc(mut s: CpcSketch) {
             s.update(sm.next());
         }
         let _ = (s.estimate(), s.validate(), s.serialize());
-        let mut u2 = CpcUnion::new(10);
-        let mut o = CpcSketch::new(10);
+        let mut u2 = CpcUnion::with_seed(10, seed);
+        let mut o = CpcSketch::with_seed(10, seed);
         o.update(3u64);
         u2.update(&o);
         u2.update(&s);
@@ -288,7 +289,8 @@ pub fn exercise_masked(bytes: &[u8], skip: Skip) -> Outcome {
     entry(&mut o, "HllSketch::deserialize", || HllSketch::deserialize(bytes), post_hll);
     entry(&mut o, "CompactThetaSketch::deserialize", || CompactThetaSketch::deserialize(bytes), post_compact);
     entry(&mut o, "CompactThetaSketch::deserialize_with_seed", || CompactThetaSketch::deserialize_with_seed(bytes, 12345), post_compact);
-    entry(&mut o, "CpcSketch::deserialize", || CpcSketch::deserialize(bytes), post_cpc);
+    entry(&mut o, "CpcSketch::deserialize", || CpcSketch::deserialize(bytes), |s| post_cpc(s, 9001));
+    entry(&mut o, "CpcSketch::deserialize_with_seed", || CpcSketch::deserialize_with_seed(bytes, 12345), |s| post_cpc(s, 12345));
     entry(&mut o, "CpcWrapper::new", || CpcWrapper::new(bytes), post_wrapper);
     entry(&mut o, "TDigestMut::deserialize(f64)", || TDigestMut::deserialize(bytes, false), post_td);
     entry(&mut o, "TDigestMut::deserialize(f32)", || TDigestMut::deserialize(bytes, true), post_td);
@@ -409,6 +411,23 @@ pub fn seeds() -> Vec<(String, Vec<u8>)> {
                 v.push((format!("theta/v4/n{n}/e{est}"), thspec::encode_v4(&entries, theta, sh)));
             }
         }
+    }
+    // images under the non-default seed 12345 (the *_with_seed entry points get past the seed-hash check)
+    let sh2 = refhash::seed_hash(12345);
+    for &n in &[0usize, 1, 9, 300] {
+        let entries = super::ser_theta::make_entries(n, 40, sm.next());
+        let theta = if n > 1 { entries[n - 1] + 10 } else { thspec::MAX_THETA };
+        v.push((format!("theta/seed12345/v3/n{n}"), thspec::encode_v3(&entries, theta, sh2, true, n == 0, true)));
+        if n > 1 {
+            v.push((format!("theta/seed12345/v4/n{n}"), thspec::encode_v4(&entries, theta, sh2)));
+        }
+    }
+    for &(lg_k, mult) in &[(4u8, 0.3f64), (4, 12.0), (8, 1.0), (8, 5.0), (10, 0.05)] {
+        let mut s = CpcSketch::with_seed(lg_k, 12345);
+        for _ in 0..((1u64 << lg_k) as f64 * mult) as u64 {
+            s.update(sm.next());
+        }
+        v.push((format!("cpc/seed12345/lg{lg_k}/x{mult}"), s.serialize()));
     }
     let mut t = ThetaSketch::builder().lg_k(9).build();
     for _ in 0..3000 {
@@ -934,7 +953,7 @@ fn catalogue_sub(ctx: &Ctx) -> SubReport {
     // dedupe
     let mut seen = BTreeSet::new();
     inputs.retain(|i| seen.insert(crate::kit::fnv64(i) ^ (i.len() as u64) << 48));
-    let mut rep = engine(ctx, "catalogue", inputs, "deterministic catalogue over ~400 seed images (every family, variant and mode, crate-written and spec-encoded): every aligned 1/2/4/8-byte field position of the first 48 bytes x 18 boundary values + 6 length-relative values, truncation at every offset (images <= 4 KB), extension by 1..16 bytes, every single-bit flip of the first 48 bytes; each input goes through 19 entry points and, when accepted, accessors / updates / merges / re-serialization; run in the release and the debug-assertions build. non-trivial = gets past the family / version / preamble checks of some entry point; distinct by content");
+    let mut rep = engine(ctx, "catalogue", inputs, "deterministic catalogue over ~400 seed images (every family, variant and mode, crate-written and spec-encoded): every aligned 1/2/4/8-byte field position of the first 48 bytes x 18 boundary values + 6 length-relative values, truncation at every offset (images <= 4 KB), extension by 1..16 bytes, every single-bit flip of the first 48 bytes; each input goes through 20 entry points and, when accepted, accessors / updates / merges / re-serialization; run in the release and the debug-assertions build. non-trivial = gets past the family / version / preamble checks of some entry point; distinct by content");
     rep.extra.insert("seed_images".into(), json!(sd.len()));
     rep
 }
@@ -981,7 +1000,7 @@ fn corpus_sub(ctx: &Ctx) -> SubReport {
     let dir = format!("{}/corpus/c14", crate::verif_root());
     let inputs = read_dir_files(&dir, 1 << 20);
     let n = inputs.len();
-    let mut rep = engine(ctx, "fuzz_corpus", inputs, "committed corpus of coverage-distinct inputs found by earlier libFuzzer campaigns over the `deser` target (seeded with the C14 seed images), replayed through the 19 entry points and post-operations in both build profiles; non-trivial = gets past the header checks of some entry point");
+    let mut rep = engine(ctx, "fuzz_corpus", inputs, "committed corpus of coverage-distinct inputs found by earlier libFuzzer campaigns over the `deser` target (seeded with the C14 seed images), replayed through the 20 entry points and post-operations in both build profiles; non-trivial = gets past the header checks of some entry point");
     rep.extra.insert("corpus_files".into(), json!(n));
     if n == 0 {
         rep.inconclusive.push(format!("{dir} is empty or missing"));
@@ -993,7 +1012,7 @@ fn corpus_sub(ctx: &Ctx) -> SubReport {
 /// and every corpus unit it produced with the engine (both profiles). libFuzzer is the generator; the verdict
 /// comes from the same oracle as the other sub-checks, so a crash of the fuzzer itself is never a violation.
 fn libfuzzer_sub(ctx: &Ctx) -> SubReport {
-    let rule = "coverage-guided campaign: libFuzzer over the `deser` target (all 19 entry points + post-operations, capping allocator, debug assertions on), started from the seed images and the committed corpus, fixed work per job; every crash artifact and every corpus unit is then re-judged by the fork-server engine in both build profiles. non-trivial = gets past the header checks of some entry point";
+    let rule = "coverage-guided campaign: libFuzzer over the `deser` target (all 20 entry points + post-operations, capping allocator, debug assertions on), started from the seed images and the committed corpus, fixed work per job; every crash artifact and every corpus unit is then re-judged by the fork-server engine in both build profiles. non-trivial = gets past the header checks of some entry point";
     let mut rep = SubReport { rule: rule.to_string(), ..Default::default() };
     if ctx.tier == crate::kit::Tier::Quick {
         rep.rule = "(thorough tier only: coverage-guided libFuzzer campaign; the quick tier replays the committed corpus, see fuzz_corpus)".into();
